@@ -1,7 +1,6 @@
 package main
 
 import (
-	"sync"
 	"crypto/md5"
 	"encoding/base64"
 	"encoding/hex"
@@ -9,6 +8,8 @@ import (
 	"fmt"
 	"sort"
 	"strings"
+	"sync"
+	"time"
 
 	"github.com/lidofinance/dc4bc/client/api/dto"
 	ctypes "github.com/lidofinance/dc4bc/client/types"
@@ -26,6 +27,19 @@ func opIDOf(round string, payload []byte) string {
 }
 
 // pendingOps reads the operation pool as the API would (visible = not tombstoned).
+// waitOrHang waits for the group; false when the requests have not all returned after the limit (the
+// goroutines are abandoned: the node they run on must not be used any further)
+func waitOrHang(wg *sync.WaitGroup, limit time.Duration) bool {
+	done := make(chan struct{})
+	go func() { wg.Wait(); close(done) }()
+	select {
+	case <-done:
+		return true
+	case <-time.After(limit):
+		return false
+	}
+}
+
 func pendingOps(e *NodeEnv) []*ctypes.Operation {
 	ob, _ := e.St.Get(topic + "_operations")
 	db, _ := e.St.Get(topic + "_deleted_operations")
@@ -129,7 +143,10 @@ func scenarioC15(c *Ctx) {
 		}
 		vs := []variant{
 			{"valid", mkRes(nil), true},
-			{"claimed-sender", mkRes(func(d *dto.OperationDTO) { d.ResultMsgs[0].SenderAddr = w.Users[2]; d.ResultMsgs[0].Signature = []byte("forged") }), true},
+			{"claimed-sender", mkRes(func(d *dto.OperationDTO) {
+				d.ResultMsgs[0].SenderAddr = w.Users[2]
+				d.ResultMsgs[0].Signature = []byte("forged")
+			}), true},
 			{"request-only", mkRes(func(d *dto.OperationDTO) { d.Event = "" }), false},
 			{"unknown-id", mkRes(func(d *dto.OperationDTO) { d.ID = "00000000000000000000000000000000" }), false},
 			{"short-id", mkRes(func(d *dto.OperationDTO) { d.ID = "ab" }), false},
@@ -257,7 +274,11 @@ func scenarioC15(c *Ctx) {
 				}()
 			}
 			close(start)
-			wg.Wait()
+			if !waitOrHang(&wg, 30*time.Second) {
+				fail("concurrent-requests-hang", fmt.Sprintf("%d simultaneous submissions of one valid answer have not all returned after 30 s: the node is stuck", submitters),
+					map[string]interface{}{"operation_type": string(o.Type), "simultaneous_requests": submitters})
+				break
+			}
 			close(okc)
 			accepted := 0
 			for ok := range okc {
@@ -307,7 +328,11 @@ func scenarioC15(c *Ctx) {
 			}()
 		}
 		close(start)
-		wg.Wait()
+		if !waitOrHang(&wg, 30*time.Second) {
+			fail("concurrent-requests-hang", fmt.Sprintf("%d simultaneous approve_participation requests for one invitation have not all returned after 30 s: the node is stuck", submitters),
+				map[string]interface{}{"operation_type": string(o.Type), "simultaneous_requests": submitters})
+			break
+		}
 		close(okc)
 		accepted := 0
 		for ok := range okc {
